@@ -3,11 +3,12 @@
 import Driver.Common
 import GivaroModel.Model.Random
 import GivaroModel.Model.RandomDest
+import GivaroModel.Model.RandomRings
 import GivaroModel.Spec.RandomSpec
 -- @driver-mode random Driver.Random.randomLine
 namespace Driver.Random
 open Driver
-open Givaro Givaro.Model.Random Givaro.Spec.Random
+open Givaro Givaro.Model.Random Givaro.Model.RandomRings Givaro.Spec.Random
 
 /-- raw generator that replays the draws recorded by the harness: (kind, argument, value) with kind 0 = `get_z_bits`,
     1 = `get_z_range`; a request whose kind or argument differs from the recorded one marks the replay as diverged -/
@@ -104,18 +105,43 @@ def modSty (t : Int) : Option (Nat × Bool) :=
 
 def loopFuel : Nat := 4096
 
+/-- element type of the `ZRing<T>` instantiations (type column 0x31 … 0x38) -/
+def zSty (t : Int) : Option (Nat × Bool) :=
+  if t == 0x31 then some (8, true) else if t == 0x32 then some (8, false) else if t == 0x33 then some (16, true)
+  else if t == 0x34 then some (16, false) else if t == 0x35 then some (32, true) else if t == 0x36 then some (32, false)
+  else if t == 0x37 then some (64, true) else if t == 0x38 then some (64, false) else none
+
+/-- the classes of Model/RandomRings.lean (type column of the harness) -/
+def ringDrawOf (t p : Int) : Option RingDraw :=
+  if t == 0x10 || t == 0x11 then some (fltRing p)
+  else if t == 0x12 then some (balRing wrapS32 p)
+  else if t == 0x13 then some (balRing wrapS64 p)
+  else if t == 0x14 || t == 0x15 then some (balRing id p)
+  else if t == 0x16 then some (mgRing p)
+  else if t == 0x39 then some zfltRing
+  else (zSty t).map (fun bs => zintRing bs.1 bs.2)
+
 /-- the harness pre-fills the destinations of the first sequence with the all-ones / -1 pattern of the element type -/
 def junkOf (t : Int) : Int :=
   match modSty t with
   | some (bits, sgn) => if sgn then -1 else 2 ^ bits - 1
-  | none => if t == 0x1a || t == 0x1b then 2 ^ 128 - 1 else -1
+  | none =>
+    if t == 0x1a || t == 0x1b then 2 ^ 128 - 1 else if t == 0x30 then 1
+    else match zSty t with
+      | some (bits, sgn) => if sgn then -1 else 2 ^ bits - 1
+      | none => -1
 
 def ringCase (a : List Int) (res : List Int) (line : String) : String :=
   match a, res with
   | [t, p, k, seed, fn, size, n], eq :: es =>
     if seed == 0 then "PRE" else
     let q : Int := if t == 0x20 || t == 0x21 then p ^ k.toNat else p
-    let canon : Int → Bool := if 0x12 ≤ t && t ≤ 0x15 then canonicalBal q else canonical q
+    let canon : Int → Bool :=
+      if 0x12 ≤ t && t ≤ 0x15 then canonicalBal q
+      else if t == 0x39 then (fun e => decide (0 ≤ e ∧ e < 9007199254740992))
+      else match zSty t with
+        | some (bits, sgn) => (fun e => if sgn then decide (-(2 ^ (bits - 1)) ≤ e ∧ e < 2 ^ (bits - 1)) else decide (0 ≤ e ∧ e < 2 ^ bits))
+        | none => canonical q
     let nz := fn == 3 || fn == 5 || fn == 7
     -- eq: the sequence drawn into pre-filled destinations equals the one drawn into zeroed destinations by an iterator that is
     -- replaced by a copy of itself half-way (destination independence, reproducibility from the seed, copy semantics)
@@ -128,7 +154,10 @@ def ringCase (a : List Int) (res : List Int) (line : String) : String :=
         if t == 0x20 then some ((gfqRun 32 q fn.toNat size loopFuel olds (givInit seed)).map (·.1))
         else if t == 0x21 then some ((gfqRun 64 q fn.toNat size loopFuel olds (givInit seed)).map (·.1))
         else if t == 0x1a || t == 0x1b then some ((ruRingRun 7 p fn.toNat loopFuel olds (givInit seed)).map (·.1))
-        else none
+        else if t == 0x30 then some ((gf2Run fn.toNat loopFuel olds (givInit seed)).map (·.1))
+        else match ringDrawOf t p with
+          | some R => some ((rRun R fn.toNat size loopFuel olds (givInit seed)).map (·.1))
+          | none => none
     match model with
     | none => verdict specOk true "speconly" line                 -- ring type whose `init` is not modelled here: implementation vs specification
     | some m => verdict specOk (m == some es) (match m with | some l => showL l | none => "LOOP") line
@@ -155,6 +184,25 @@ def polyCase (a : List Int) (r0 r1 r2 : List Int) (line : String) : String :=
       verdict specOk (m == some cs) (match m with | some l => showL l | none => "LOOP") line
     else verdict specOk true "speconly" line
   | _, _, _, _ => "BAD poly | " ++ line
+
+/-- `ext p e seed kind arg = r0 U r1 U r2` (Extension<Modular<int32_t>>) -/
+def extCase (a : List Int) (r0 r1 r2 : List Int) (line : String) : String :=
+  match a, polyOf r0, polyOf r1, polyOf r2 with
+  | [p, e, seed, kind, arg], some cs, some cs1, some cs2 =>
+    if seed == 0 then "PRE" else
+    if kind == 6 then
+      -- Extension::RandIter: `order()` coefficients, each canonical (the vector is not normalised: the polynomial domain
+      -- normalises lazily); the three draws agree (pre-filled / fresh destination, copied iterator)
+      verdict (decide (cs.length = e.toNat) && cs.all (canonical p) && cs1 == cs && cs2 == cs) true "speconly" line
+    else
+      let d := extDegree e kind.toNat arg
+      -- a non-zero element of size 0 does not exist; `b` must be an element of the field
+      if (d < 0 && kind ≥ 3) || (kind % 3 == 2 && arg > e) then "PRE" else
+      let specOk := polyDegOk p d cs && decide ((cs.length : Int) ≤ e) && cs1 == cs && cs2 == cs
+      let old : List Int := List.replicate (e.toNat + 9) 1
+      let m := (extRandomD p e kind.toNat arg loopFuel old (givInit seed)).map (·.1)
+      verdict specOk (m == some cs) (match m with | some l => showL l | none => "LOOP") line
+  | _, _, _, _ => "BAD ext | " ++ line
 
 /-- successive `rand` values from the word stream, every destination holding `old` -/
 def ruSeq (f : Int → List Int → Int × List Int) (old : Int) : Nat → List Int → List Int × List Int
@@ -219,6 +267,7 @@ def randomLine (line : String) : String :=
           | _ => "BAD | " ++ line
         else if key == "ring" then ringCase a (v ++ []) line
         else if key == "poly" then polyCase a v u1 u2 line
+        else if key == "ext" then extCase a v u1 u2 line
         else if key == "ru" || key == "ri" then
           match a with
           | [k, _, n] =>
